@@ -17,6 +17,7 @@ RULE = (
     "worker processes that see the cases in reverse order and another partition, and the bit patterns are compared (process-wide memos). "
     "Probes count cache hits/misses/drops. "
     "Distinct = (history kind, TMC, scheme, process, PTO); non-trivial = the history contained a cache hit or a cache drop and the compared tensors are non-zero."
+    " The second set of processes runs under another PYTHONHASHSEED and serves, before each reference, a twin grid, the same nodes in the other interpolation mode and with another degree, and another NfFF."
 )
 ASSUMPTIONS = ["the point dictionaries of one history are distinct objects unless the history class says otherwise"]
 HKINDS = ["permute", "superset", "subset", "repeat", "second-runner", "abort", "scribble"]
